@@ -37,6 +37,18 @@ def generate(seed, tier):
                        (999999999999998.0, 0.0, 19), (0.1, 0.0, 19), (1e-300, 0.0, 19), (2.0 ** 60, 0.0, 19), (5.0, 3.0, 2), (5.0, 2.5, 2), (5.0, 0.25, 2),
                        (1.0, 0.0, 1), (1.0, 0.1, 0), (1.0, 0.1, 4294967295), (1.0, 995.0, 99), (1.0, 994.9, 99), (0.0, 0.0, 19), (1e22, 0.0, 19)]:
         yield "initnumb a %s %s %d" % (dtok(D(v)), dtok(D(s)), rule)
+    for x, sc in [(1999999999.96, 1), (1999999999.996, 2), (12999999999.9996, 3), (1999999999.6, 0), (999999999999999999.0, 0),
+                  (1.9999999999996e18, -6), (-1999999999.96, 1)]:
+        yield "initnumb i %s %s %d 5" % (dtok(D(x)), dtok(D(0.96)), sc)
+        yield "initnumb i %s %s %d 5" % (dtok(D(x)), dtok(Z), sc)
+    for i in range(300 if tier == "quick" else 6000):
+        d, sc = nc.carry_ripple_case(r) if i % 2 == 0 else nc.nines_case(r)
+        su = r.choice([Z, D(1999999999.96), D(0.96), D(9.996), nc.carry_ripple_case(r)[0]])
+        su = (False, su[1], su[2])
+        if r.random() < 0.5:
+            yield "initnumb i %s %s %d %d" % (dtok(d), dtok(su), sc, r.choice([0, 5]))
+        else:
+            yield "initnumb a %s %s %d" % (dtok(d), dtok(su), r.choice(SU_RULES))
     for i in range(n):
         val = nc.rand_double(r)
         c = r.random()
